@@ -67,6 +67,7 @@ func TestC14(t *testing.T) {
 				ps.RemoteAS = 65002
 				ps.Hold = int(hold)
 				ps.Passive = p.Dir == "in"
+				ps.IdleHold = time.Second
 				ps.Cfg.NoNonce = true
 				for _, cp := range caps {
 					ps.Cfg.Caps = append(ps.Cfg.Caps, corebgp.Capability{Code: cp.Code, Value: cp.Value})
@@ -104,6 +105,40 @@ func TestC14(t *testing.T) {
 				}
 				if why := exp.CheckOpen(ms[0].Open); why != "" {
 					w.Violate("%s OPEN on the wire does not reflect configuration: %s", desc, why)
+				}
+				// every later OPEN of the peer must be the same, whatever was negotiated before:
+				// complete a session in which the remote proposes a smaller hold time, drop it, reconnect
+				if i%3 != 0 {
+					return
+				}
+				small := uint16(0)
+				if hold > 3 {
+					small = 3 + uint16(r.IntN(int(hold)-3))
+				}
+				rc.SendOpen(rc.StdOpen(ps.RemoteAS, small, remoteIDu))
+				w.Settle()
+				rc.SendKeepalive()
+				w.Settle()
+				rc.Close()
+				w.Settle()
+				var rc2 *hz.RConn
+				if p.Dir == "in" {
+					rc2 = w.Connect(ps.Addr)
+				} else {
+					rc2 = w.WaitOut(2, time.Minute)
+					if rc2 == nil {
+						w.Violate("%s no second outbound connection", desc)
+						return
+					}
+				}
+				w.Settle()
+				ms2 := rc2.Msgs()
+				if len(ms2) != 1 || ms2[0].Type != wire.TypeOpen {
+					w.Violate("%s second connection did not start with an OPEN: [%s]", desc, typesOf(ms2))
+					return
+				}
+				if why := exp.CheckOpen(ms2[0].Open); why != "" {
+					w.Violate("%s OPEN on the peer's second connection (after a session in which the remote proposed hold time %d) does not reflect configuration: %s", desc, small, why)
 				}
 			})
 			return worldResult(out, true, fmt.Sprint("|", exp.Representable, as > 65535, p.Dir, min(len(caps), 6)), map[string]int{"opens": 1})
